@@ -30,6 +30,8 @@ After every step:
     surviving entries in their original relative order, new entries last / where the API documents them
     (TOML syntax forces the key/value lines of a table before its sub-tables, so the relative order of
     values and sub-tables is not observable in text; sub-tables are placed by `doc_position`),
+  * sub-table order: the original sub-tables of a table that have a header line of their own (not implicit, not dotted;
+    arrays of tables whose first element is the original one) and are still there come in their original relative order,
   * verbatim: every entry of the ORIGINAL document no operation has touched so far (not the edited
     entry, not inside a reformatted / converted container) has, at its current path, byte-identical own
     formatting (key decor + spelling, value decor + spelling, header decor) to step 0.
@@ -65,7 +67,11 @@ THEOREMS = [
     "C08_history_verbatim: the same along any applicable operation list",
     "C08_step_wf / C08_history_wf: no operation leaves an Item::None placeholder (no_none (abs t) is preserved)",
     "C08_text_valid_refuted / C08_text_content_refuted_table_in_inline / _empty_container / _unpositioned_element: the text-level half is false of the model on the four known classes (witnesses replayed on the implementation)",
-    "NOT proved (checked by the oracle on the implementation): identical reprs -> identical printed fragments; printed text is valid TOML and re-parses to abs t' (C06 round trip)",
+    "C08_fragment / C08_history_fragment: the print fragment (FLine: stored key path in the section + whole value; FHead: stored header key path + decor) of every untouched entry is identical after the operation",
+    "C08_print_sections: display_document = root prefix ++ (per section in printing order: header fragment ++ entry fragments) ++ suffix ++ trailing",
+    "C08_line_printed / C08_header_printed: every line fragment of a tree occurs in its printed text; every header fragment too unless the table is implicit without lines",
+    "C08_verbatim_text / C08_history_verbatim_text: the text printed after an edit contains, byte for byte, the key/value line of every untouched entry",
+    "NOT proved (checked by the oracle on the implementation): relative order of the fragments across sections as one theorem; printed text is valid TOML and re-parses to abs t' (C06 round trip)",
 ]
 RULE = ("gen_toml documents (random layout, comments and whitespace in every decor slot) x random operation lists "
         "(length <= 12 quick) on existing / missing / wrongly typed paths over the document's own keys plus fresh keys; "
@@ -661,6 +667,62 @@ def diff(p, r, path="r"):
     return None
 
 
+def ranks0(n, path, out):
+    """position of every entry among its siblings in the step-0 text"""
+    if n.kind == "t":
+        for i, (k, c) in enumerate(n.items):
+            cp = path + "/" + seg_key(k)
+            out[cp] = i
+            ranks0(c, cp, out)
+    elif n.kind in ("a", "A"):
+        for i, c in enumerate(n.elems):
+            cp = "%s/i%d" % (path, i)
+            out[cp] = i
+            ranks0(c, cp, out)
+    return out
+
+
+def anchored(c):
+    """an original sub-table whose place in the text is its own header: a [table] that is neither implicit
+    nor dotted, or an array of tables whose first element is the original first element"""
+    if c.orig is None:
+        return False
+    if c.kind == "t":
+        return not c.inl and not c.implicit and not c.dotted
+    if c.kind == "A":
+        return bool(c.elems) and c.elems[0].orig is not None and c.elems[0].orig.endswith("/i0")
+    return False
+
+
+def table_order(p, r, rank0, path="r"):
+    """the original sub-tables of every standard table that are still there come in their original relative order"""
+    if p.kind == "t":
+        if not p.inl and r.kind == "t":
+            seq = []
+            for k, rc in r.items:
+                c = p.get(k)
+                if c is not None and anchored(c) and c.orig in rank0:
+                    seq.append((c.orig.rsplit("/", 1)[0], rank0[c.orig], k))
+            last = {}
+            for parent, rk, k in seq:
+                if parent in last and last[parent][0] > rk:
+                    return "%s: original sub-tables %r and %r have changed their relative order in the text" % (
+                        path, last[parent][1].decode("utf-8", "replace"), k.decode("utf-8", "replace"))
+                last[parent] = (rk, k)
+        for k, c in p.items:
+            rc = r.get(k) if r.kind == "t" else None
+            if rc is not None:
+                d = table_order(c, rc, rank0, path + "/" + seg_key(k))
+                if d:
+                    return d
+    elif p.kind == "A" and r.kind == "A":
+        for i, (a, b) in enumerate(zip(p.elems, r.elems)):
+            d = table_order(a, b, rank0, "%s/i%d" % (path, i))
+            if d:
+                return d
+    return None
+
+
 def refresh_badkey(p, path, frags):
     f = frags.get(path)
     if f is not None and path.rsplit("/", 1)[-1].startswith("k"):
@@ -733,6 +795,7 @@ def _analyse(case, il):
     root = parse_dump(f0[3])
     frags0 = parse_frags(f0[4])
     annotate(root, "r", frags0, True)
+    rank0 = ranks0(root, "r", {})
     want = case.meta.get("dump")
     if want is not None and want != f0[3]:
         return ("the decoded content of the unedited document differs from the reference interpreter's: %s vs %s" % (f0[3], want), None, 0)
@@ -792,7 +855,7 @@ def _analyse(case, il):
             return ("%s: %s" % (what, d), None, applied)
         if skip_verbatim:
             continue
-        v = verbatim(shown, "r", frags0, frags)
+        v = verbatim(shown, "r", frags0, frags) or table_order(shown, got, rank0)
         if v:
             return ("%s: %s" % (what, v), None, applied)
     if known:
